@@ -128,3 +128,33 @@ package checkers
 //@   prop C14
 //@   nosafety receivers and contexts are non-nil by construction of the checker (constructor postcondition), not restated here
 //@   ensures @param-plumbed the("unnamedResultChecker").checkExported == unbox(info.Params["checkExported"].Value, "bool")
+
+// ---- C15 / C03: the rule engine is run with the current package, types and target Go version of the shared context
+
+//@ func (*embeddedRuleguardChecker).WalkFile
+//@   prop C15 C03
+//@   nosafety the context is non-nil by construction
+//@   requires c != nil && c.ctx != nil && c.ctx.Context != nil
+//@   call runRuleguardEngine requires @run-context-is-current-and-per-file arg3 != nil && fresh(arg3) && arg3.Pkg == c.ctx.Pkg && arg3.Types == c.ctx.TypesInfo && arg3.Sizes == c.ctx.SizesInfo && arg3.Fset == c.ctx.FileSet
+//@   call runRuleguardEngine requires @go-version-handed-over arg3.GoVersion.Major == c.ctx.GoVersion.Major && arg3.GoVersion.Minor == c.ctx.GoVersion.Minor
+//@   call runRuleguardEngine requires @same-context-and-engine arg0 == c.ctx && arg1 == f && arg2 == c.engine
+
+//@ func (*ruleguardChecker).WalkFile
+//@   prop C03 C18
+//@   nosafety the context is non-nil by construction
+//@   requires c != nil && c.ctx != nil && c.ctx.Context != nil
+//@   call runRuleguardEngine requires @run-context-is-current-and-per-file arg3 != nil && fresh(arg3) && arg3.Pkg == c.ctx.Pkg && arg3.Types == c.ctx.TypesInfo && arg3.Sizes == c.ctx.SizesInfo && arg3.Fset == c.ctx.FileSet
+//@   call runRuleguardEngine requires @same-context-and-engine arg0 == c.ctx && arg1 == f && arg2 == c.engine && c.engine != nil
+
+// ---- C07 / C02: engine reports are forwarded with their position and fix unchanged
+
+//@ func runRuleguardEngine$1
+//@   prop C07
+//@   nosafety report data comes from the engine
+//@   ensures @report-recorded-unchanged len(reports) == old(len(reports)) + 1 && reports[len(reports) - 1].message == data.Message && (data.Suggestion != nil ==> (reports[len(reports) - 1].fix.From == data.Suggestion.From && reports[len(reports) - 1].fix.To == data.Suggestion.To && reports[len(reports) - 1].fix.Replacement == data.Suggestion.Replacement)) && (data.Suggestion == nil ==> reports[len(reports) - 1].fix.Replacement == nil)
+
+//@ func runRuleguardEngine
+//@   prop C07 C02
+//@   nosafety the engine and context are non-nil by construction
+//@   call WarnFixableWithPos requires @position-and-fix-forwarded arg1 == report.pos && arg2 == report.fix && arg3 == "%s"
+//@   call WarnWithPos requires @position-forwarded arg1 == report.pos && arg2 == "%s"
